@@ -25,6 +25,7 @@ import (
 	"os"
 	"runtime"
 	"runtime/debug"
+	"sort"
 	"strconv"
 	"strings"
 	"sync"
@@ -298,6 +299,113 @@ func vsoProbe(c vsoCase, out *vsoOut, followBound time.Duration) error {
 	return nil
 }
 
+
+// vsoTracked: server shard ids of the forwarder entries of the process-wide stream tracker, ascending.
+func vsoTracked() []int {
+	ids := []int{}
+	for _, si := range GetGlobalStreamTracker().GetActiveStreams() {
+		if si.Role != StreamRoleForwarder {
+			continue
+		}
+		var cl, sh int
+		if _, err := fmt.Sscanf(si.ServerShard, "(id: %d, shard: %d)", &cl, &sh); err != nil {
+			sh = -1
+		}
+		ids = append(ids, sh)
+	}
+	sort.Ints(ids)
+	return ids
+}
+
+// vsoOverlap: several well-formed streams open at the same time on one server - distinct server shard ids that are congruent
+// modulo both clusters' shard counts (4 and 6: 1, 5, 7, 9), then a second stream on a server shard id that is already
+// streaming (clusters with different shard counts; a reconnect before the old stream is gone).  After every step the
+// observer's active set and (forwarder modes) the tracker's entries are recorded; StreamObsObs compares them with the
+// streams that are open.
+func vsoOverlap(id int, mode, srv string, out *vsoOut) error {
+	rig, err := vlNewRig(vsoShardCfg(mode), 4, 6)
+	if err != nil {
+		return err
+	}
+	defer rig.close()
+	obs := rig.cc.inboundObserver
+	if srv == "outbound" {
+		obs = rig.cc.outboundObserver
+	}
+	// the tracker is process-wide: wait until earlier rigs' streams are gone
+	base := -1
+	for k := 0; k < 100; k++ {
+		if base = len(vsoTracked()); base == 0 {
+			break
+		}
+		time.Sleep(50 * time.Millisecond)
+	}
+	steps := []map[string]interface{}{}
+	open := map[int]*vsoStream{}
+	notServed := 0
+	snap := func(what string, twin bool) {
+		ids, all := []int{}, []int{} // server shard ids with an open stream; one per open stream
+		for k := range open {
+			if k < 100 {
+				ids = append(ids, k)
+			}
+			all = append(all, k%100)
+		}
+		sort.Ints(ids)
+		sort.Ints(all)
+		// bookkeeping of a closed stream is undone when its handler returns, shortly after the client saw the end
+		var pr string
+		var act, trk []int
+		for k := 0; k < 60; k++ {
+			pr, act = vsoPrinter(obs, 3*time.Second)
+			trk = vsoTracked()
+			trkSettled := mode == "routing" || fmt.Sprint(trk) == fmt.Sprint(all)
+			if pr != "ok" || (fmt.Sprint(act) == fmt.Sprint(ids) && trkSettled) {
+				break
+			}
+			time.Sleep(50 * time.Millisecond)
+		}
+		steps = append(steps, map[string]interface{}{"what": what, "open": ids, "streams": all, "twin": twin, "printer": pr, "active": act, "tracked": trk})
+	}
+	op := func(key, csh, ssh int) {
+		st, w, _, _ := vsoOpen(rig, srv, vsoWellFormed(csh, ssh), 10*time.Second)
+		if w != "served-open" {
+			notServed++
+			if st != nil {
+				st.cancel()
+			}
+			return
+		}
+		open[key] = st
+	}
+	cl := func(key int) {
+		if st := open[key]; st != nil {
+			if e, _ := vsoClose(st, 10*time.Second); e != "ok" {
+				notServed++
+			}
+			delete(open, key)
+		}
+	}
+	for i, ssh := range []int{1, 5, 7, 9} {
+		op(ssh, i+1, ssh)
+	}
+	snap("opened 1 5 7 9", false)
+	cl(1)
+	snap("closed 1", false)
+	op(105, 6, 5) // the twin: server shard 5 again, another client shard
+	snap("opened a second stream on 5", true)
+	cl(105)
+	snap("closed the second stream on 5", true)
+	cl(7)
+	snap("closed 7", true)
+	cl(5)
+	cl(9)
+	snap("closed 5 9", true)
+	out.emit(map[string]interface{}{"ev": "Overlap", "id": id, "mode": mode, "srv": srv, "baseline": base, "notserved": notServed,
+		"forwarder": mode != "routing", "steps": steps})
+	return nil
+}
+
 // ---------------------------------------------------------------- one stream fails by a panic; several streams at once
 
 // an upstream client that panics: "handleStream panics" for whatever reason (StreamObs!Serve, ServeFails)
@@ -362,6 +470,14 @@ func TestVerifStreamObsExtra(t *testing.T) {
 		runtime.GOMAXPROCS(4)
 	}
 	id := 0
+	for _, mode := range []string{"default", "lcm", "routing"} {
+		for _, srv := range []string{"inbound", "outbound"} {
+			id++
+			if err := vsoOverlap(id, mode, srv, out); err != nil {
+				t.Fatal(err)
+			}
+		}
+	}
 	for _, mode := range []string{"default", "lcm"} {
 		for _, srv := range []string{"inbound", "outbound"} {
 			rig, err := vlNewRig(vsoShardCfg(mode), 4, 6)
